@@ -1137,3 +1137,241 @@ Proof.
   rewrite !c13_widen_narrow_id by assumption.
   apply (new_of_channels_wf a Wa Ra c Hv).
 Qed.
+
+(* --- gray -> gray *)
+Lemma gray_pair_facts a b : In (FGrayGray, a, b) conv_pairs ->
+  row_wf a = true /\ row_wf b = true /\ is_gray a = true /\ is_gray b = true.
+Proof.
+  intros H. destruct (pair_facts _ _ _ H) as (Ga & Gb & _ & K). cbn in K. apply andb_prop in K.
+  destruct (good_row_facts a Ga) as (? & ? & _). destruct (good_row_facts b Gb) as (? & ? & _). tauto.
+Qed.
+
+Lemma c13_gray_gray_nearest : forall a b, In (FGrayGray, a, b) conv_pairs -> forall c, valid a c ->
+  let c' := convert FGrayGray a b c in
+  valid b c' /\ 2 * Z.abs (luma_of b c' * max_luma a - luma_of a c * max_luma b) <= max_luma a.
+Proof.
+  intros a b H c Hv. destruct (gray_pair_facts a b H) as (Wa & Wb & Ya & Yb). cbv zeta. cbn [convert].
+  destruct (conv_gray_gray_channels a b Wa Wb c Ya Yb Hv) as (V & ->). split; [exact V|].
+  destruct (gray_max a Wa Ya) as (? & ? & Va). destruct (gray_max b Wb Yb) as (? & ? & _). apply Va in Hv.
+  apply (nearest_of_cc (bpp a) (bpp b)); assumption.
+Qed.
+
+Lemma c13_gray_gray_mono : forall a b, In (FGrayGray, a, b) conv_pairs -> forall c1 c2, valid a c1 -> valid a c2 ->
+  luma_of a c1 <= luma_of a c2 -> luma_of b (convert FGrayGray a b c1) <= luma_of b (convert FGrayGray a b c2).
+Proof.
+  intros a b H c1 c2 Hv1 Hv2 L. destruct (gray_pair_facts a b H) as (Wa & Wb & Ya & Yb). cbn [convert].
+  destruct (conv_gray_gray_channels a b Wa Wb c1 Ya Yb Hv1) as (_ & ->).
+  destruct (conv_gray_gray_channels a b Wa Wb c2 Ya Yb Hv2) as (_ & ->).
+  destruct (gray_max a Wa Ya) as (? & ? & Va). destruct (gray_max b Wb Yb) as (? & ? & _).
+  apply Va in Hv1. apply Va in Hv2. apply (mono_of_cc (bpp a) (bpp b)); assumption.
+Qed.
+
+Lemma c13_gray_widen_narrow_id : forall a b, In (FGrayGray, a, b) conv_pairs -> In (FGrayGray, b, a) conv_pairs ->
+  bpp a <= bpp b -> forall c, valid a c -> convert FGrayGray b a (convert FGrayGray a b c) = c.
+Proof.
+  intros a b H H' L c Hv. destruct (gray_pair_facts a b H) as (Wa & Wb & Ya & Yb). cbn [convert].
+  destruct (conv_gray_gray_channels a b Wa Wb c Ya Yb Hv) as (V & E).
+  destruct (conv_gray_gray_channels b a Wb Wa _ Yb Ya V) as (_ & E2). unfold luma_of in E2 at 1. rewrite E2, E.
+  destruct (gray_max a Wa Ya) as (Ha & Ea & Va). destruct (gray_max b Wb Yb) as (Hb & Eb & _). apply Va in Hv.
+  rewrite Ea, Eb in *. apply c13_widen_narrow_id; assumption.
+Qed.
+
+(* --- gray -> rgb: every channel is the gray value scaled to that channel's range *)
+Lemma gray_rgb_pair_facts a b : In (FGrayRgb, a, b) conv_pairs ->
+  row_wf a = true /\ row_wf b = true /\ chan_pos b = true /\ is_gray a = true /\ is_rgb b = true.
+Proof.
+  intros H. destruct (pair_facts _ _ _ H) as (Ga & Gb & _ & K). cbn in K. apply andb_prop in K.
+  destruct (good_row_facts a Ga) as (? & ? & _). destruct (good_row_facts b Gb) as (? & ? & _). tauto.
+Qed.
+
+Lemma c13_gray_rgb_equal_scaling : forall a b, In (FGrayRgb, a, b) conv_pairs -> forall c, valid a c ->
+  let c' := convert FGrayRgb a b c in
+  valid b c' /\
+  2 * Z.abs (get_r b c' * max_luma a - luma_of a c * max_r b) <= max_luma a /\
+  2 * Z.abs (get_g b c' * max_luma a - luma_of a c * max_g b) <= max_luma a /\
+  2 * Z.abs (get_b b c' * max_luma a - luma_of a c * max_b b) <= max_luma a.
+Proof.
+  intros a b H c Hv. destruct (gray_rgb_pair_facts a b H) as (Wa & Wb & Pb & Ya & Rb). cbv zeta. cbn [convert].
+  assert (Pa : chan_pos a = true) by (unfold chan_pos, is_gray in *; destruct (c_kind a); try discriminate; reflexivity).
+  destruct (conv_gray_rgb_channels a b Wa Wb Pb c Ya Rb Hv) as (V & -> & -> & ->). split; [exact V|].
+  destruct (gray_max a Wa Ya) as (? & ? & Va). apply Va in Hv.
+  destruct (rgb_max b Wb Pb Rb) as ((? & ?) & (? & ?) & (? & ?)).
+  split; [|split].
+  - apply (nearest_of_cc (bpp a) (rbits b)); assumption.
+  - apply (nearest_of_cc (bpp a) (gbits b)); assumption.
+  - apply (nearest_of_cc (bpp a) (bbits b)); assumption.
+Qed.
+
+Lemma c13_gray_rgb_mono : forall a b, In (FGrayRgb, a, b) conv_pairs -> forall c1 c2, valid a c1 -> valid a c2 ->
+  luma_of a c1 <= luma_of a c2 ->
+  get_r b (convert FGrayRgb a b c1) <= get_r b (convert FGrayRgb a b c2) /\
+  get_g b (convert FGrayRgb a b c1) <= get_g b (convert FGrayRgb a b c2) /\
+  get_b b (convert FGrayRgb a b c1) <= get_b b (convert FGrayRgb a b c2).
+Proof.
+  intros a b H c1 c2 Hv1 Hv2 L. destruct (gray_rgb_pair_facts a b H) as (Wa & Wb & Pb & Ya & Rb). cbn [convert].
+  destruct (conv_gray_rgb_channels a b Wa Wb Pb c1 Ya Rb Hv1) as (_ & -> & -> & ->).
+  destruct (conv_gray_rgb_channels a b Wa Wb Pb c2 Ya Rb Hv2) as (_ & -> & -> & ->).
+  destruct (gray_max a Wa Ya) as (? & ? & Va). apply Va in Hv1. apply Va in Hv2.
+  destruct (rgb_max b Wb Pb Rb) as ((? & ?) & (? & ?) & (? & ?)).
+  split; [|split].
+  - apply (mono_of_cc (bpp a) (rbits b)); assumption.
+  - apply (mono_of_cc (bpp a) (gbits b)); assumption.
+  - apply (mono_of_cc (bpp a) (bbits b)); assumption.
+Qed.
+
+(* gray -> rgb -> gray returns the original gray when every rgb channel has at least as many bits (finite: decided) *)
+Definition grg_check (p : family * crow * crow) : bool :=
+  let '(f, a, b) := p in
+  match f with
+  | FGrayRgb =>
+      if (bpp a <=? rbits b) && (bpp a <=? gbits b) && (bpp a <=? bbits b) then
+        match find_pair b a with
+        | Some FRgbGray => forallb (fun c => convert FRgbGray b a (convert FGrayRgb a b c) =? c) (range 0 (2 ^ bpp a))
+        | _ => false
+        end
+      else true
+  | _ => true
+  end.
+Lemma pairs_grg : forallb grg_check conv_pairs = true.
+Proof. vm_cast_no_check (eq_refl true). Qed.
+
+Lemma c13_gray_rgb_gray_id : forall a b, In (FGrayRgb, a, b) conv_pairs ->
+  bpp a <= rbits b -> bpp a <= gbits b -> bpp a <= bbits b -> forall c, valid a c ->
+  find_pair b a = Some FRgbGray /\ convert FRgbGray b a (convert FGrayRgb a b c) = c.
+Proof.
+  intros a b H Lr Lg Lb c Hv. pose proof (proj1 (forallb_forall _ conv_pairs) pairs_grg _ H) as W. cbn in W.
+  apply Z.leb_le in Lr, Lg, Lb. rewrite Lr, Lg, Lb in W. cbn in W.
+  destruct (find_pair b a) as [[]|]; try discriminate. split; [reflexivity|].
+  destruct (gray_rgb_pair_facts a b H) as (Wa & _ & _ & Ya & _). destruct (gray_max a Wa Ya) as (? & E & Va).
+  apply Va in Hv. unfold luma_of in Hv. rewrite E in Hv.
+  apply Z.eqb_eq. apply (forallb_range _ 0 (2 ^ bpp a) c W). lia.
+Qed.
+
+(* --- luma *)
+Lemma c13_luma_gray_identity : forall g, 0 <= g <= 255 -> luma888 (rgb_new via_rgb g g g) = g.
+Proof.
+  intros g Hg. destruct via_facts as (Gv & Rv & Mr & Mg & Mb & _). destruct (good_row_facts _ Gv) as (Wv & Pv & _).
+  rewrite luma888_lumaf.
+  destruct (rgb_new_small via_rgb g g g Wv Pv Rv) as (-> & -> & -> & _); try lia.
+  apply lumaf_gray, Hg.
+Qed.
+
+Lemma c13_luma_mono : forall c1 c2, valid via_rgb c1 -> valid via_rgb c2 ->
+  get_r via_rgb c1 <= get_r via_rgb c2 -> get_g via_rgb c1 <= get_g via_rgb c2 -> get_b via_rgb c1 <= get_b via_rgb c2 ->
+  luma888 c1 <= luma888 c2 /\ 0 <= luma888 c1 /\ luma888 c2 <= 255.
+Proof.
+  intros c1 c2 V1 V2 Lr Lg Lb. destruct via_facts as (Gv & Rv & Mr & Mg & Mb & _). destruct (good_row_facts _ Gv) as (Wv & Pv & _).
+  destruct (rgb_chan_range via_rgb c1 Wv Rv V1) as (? & ? & ?). destruct (rgb_chan_range via_rgb c2 Wv Rv V2) as (? & ? & ?).
+  rewrite Mr, Mg, Mb in *. rewrite !luma888_lumaf. split; [apply lumaf_mono; lia|].
+  split; apply lumaf_plain; lia.
+Qed.
+
+Lemma c13_luma_weights : luma_wr + luma_wg + luma_wb = luma_div /\ 2 * luma_round = luma_div /\
+  0 <= luma_wr /\ 0 <= luma_wg /\ 0 <= luma_wb /\ (luma_wr + luma_wg + luma_wb) * 255 + luma_round < 65536.
+Proof. pose proof luma_consts as K. unfold luma_consts_ok in K. lia. Qed.
+
+(* --- rgb -> gray: through Rgb888 and Gray8 (double rounding): extremes (c13_black_white) and monotone *)
+Lemma rgb_gray_pair_facts a b : In (FRgbGray, a, b) conv_pairs ->
+  good_row a = true /\ good_row b = true /\ is_rgb a = true /\ is_gray b = true.
+Proof.
+  intros H. destruct (pair_facts _ _ _ H) as (Ga & Gb & _ & K). cbn in K. apply andb_prop in K. tauto.
+Qed.
+
+Lemma luma_via_mono a c1 c2 : good_row a = true -> is_rgb a = true -> valid a c1 -> valid a c2 ->
+  get_r a c1 <= get_r a c2 -> get_g a c1 <= get_g a c2 -> get_b a c1 <= get_b a c2 -> luma_via a c1 <= luma_via a c2.
+Proof.
+  intros Ga Ra V1 V2 Lr Lg Lb. destruct (good_row_facts a Ga) as (Wa & Pa & _).
+  destruct (cc_to8 a c1 Wa Pa Ra V1) as (? & ? & ?). destruct (cc_to8 a c2 Wa Pa Ra V2) as (? & ? & ?).
+  destruct (rgb_max a Wa Pa Ra) as ((? & ?) & (? & ?) & (? & ?)).
+  destruct (rgb_chan_range a c1 Wa Ra V1) as (? & ? & ?). destruct (rgb_chan_range a c2 Wa Ra V2) as (? & ? & ?).
+  assert (Hw8 : 1 <= 8 <= 8) by lia. assert (Ew8 : 255 = 2 ^ 8 - 1) by reflexivity.
+  unfold luma_via. apply lumaf_mono; try lia; split; try lia.
+  - apply (mono_of_cc (rbits a) 8); assumption.
+  - apply (mono_of_cc (gbits a) 8); assumption.
+  - apply (mono_of_cc (bbits a) 8); assumption.
+Qed.
+
+Lemma c13_rgb_gray_luma : forall a b, In (FRgbGray, a, b) conv_pairs -> forall c, valid a c ->
+  let c' := convert FRgbGray a b c in
+  valid b c' /\ luma_of b c' = convert_channel 255 (max_luma b) (luma_via a c) /\ 0 <= luma_via a c <= 255.
+Proof.
+  intros a b H c Hv. destruct (rgb_gray_pair_facts a b H) as (Ga & Gb & Ra & Yb). cbv zeta. cbn [convert].
+  destruct (conv_rgb_gray_luma a b c Ga Gb Ra Yb Hv) as (V & E). split; [exact V|]. split; [exact E|].
+  apply luma_via_range; assumption.
+Qed.
+
+Lemma c13_rgb_gray_mono : forall a b, In (FRgbGray, a, b) conv_pairs -> forall c1 c2, valid a c1 -> valid a c2 ->
+  get_r a c1 <= get_r a c2 -> get_g a c1 <= get_g a c2 -> get_b a c1 <= get_b a c2 ->
+  luma_of b (convert FRgbGray a b c1) <= luma_of b (convert FRgbGray a b c2).
+Proof.
+  intros a b H c1 c2 V1 V2 Lr Lg Lb. destruct (rgb_gray_pair_facts a b H) as (Ga & Gb & Ra & Yb). cbn [convert].
+  destruct (conv_rgb_gray_luma a b c1 Ga Gb Ra Yb V1) as (_ & ->).
+  destruct (conv_rgb_gray_luma a b c2 Ga Gb Ra Yb V2) as (_ & ->).
+  pose proof (luma_via_range a c1 Ga Ra V1). pose proof (luma_via_range a c2 Ga Ra V2).
+  pose proof (luma_via_mono a c1 c2 Ga Ra V1 V2 Lr Lg Lb).
+  destruct (good_row_facts b Gb) as (Wb & _). destruct (gray_max b Wb Yb) as (? & ? & _).
+  assert (Hw8 : 1 <= 8 <= 8) by lia. assert (Ew8 : 255 = 2 ^ 8 - 1) by reflexivity.
+  apply (mono_of_cc 8 (bpp b)); assumption.
+Qed.
+
+(* --- to BinaryColor: On exactly for the upper half of the luma range *)
+Definition gray_bin_check (p : family * crow * crow) : bool :=
+  let '(f, a, b) := p in
+  match f with
+  | FGrayBin => forallb (fun c => Bool.eqb (convert FGrayBin a b c =? bin_on) (2 ^ (bpp a - 1) <=? luma_of a c)
+                                  && Bool.eqb (convert FGrayBin a b c =? bin_off) (luma_of a c <? 2 ^ (bpp a - 1)))
+                        (range 0 (2 ^ bpp a))
+  | _ => true
+  end.
+Lemma pairs_gray_bin : forallb gray_bin_check conv_pairs = true.
+Proof. vm_cast_no_check (eq_refl true). Qed.
+
+Lemma c13_gray_binary_upper_half : forall a b, In (FGrayBin, a, b) conv_pairs -> forall c, valid a c ->
+  (convert FGrayBin a b c = bin_on <-> 2 ^ (bpp a - 1) <= luma_of a c) /\
+  (convert FGrayBin a b c = bin_off <-> luma_of a c < 2 ^ (bpp a - 1)) /\ 2 * 2 ^ (bpp a - 1) = max_luma a + 1.
+Proof.
+  intros a b H c Hv. pose proof (proj1 (forallb_forall _ conv_pairs) pairs_gray_bin _ H) as W. unfold gray_bin_check in W.
+  destruct (pair_facts _ _ _ H) as (Ga & _ & _ & K). cbn in K. apply andb_prop in K. destruct K as [Ya _].
+  destruct (good_row_facts a Ga) as (Wa & _). destruct (gray_max a Wa Ya) as (Hb & E & Va).
+  apply Va in Hv. pose proof Hv as Hv'. unfold luma_of in Hv'. rewrite E in Hv'.
+  pose proof (forallb_range _ 0 (2 ^ bpp a) c W ltac:(lia)) as C. cbv beta in C.
+  apply andb_prop in C. destruct C as [C1 C2]. apply Bool.eqb_prop in C1, C2.
+  split; [|split].
+  - rewrite <- Z.eqb_eq, C1. apply Z.leb_le.
+  - rewrite <- Z.eqb_eq, C2. apply Z.ltb_lt.
+  - rewrite E. replace (bpp a) with (1 + (bpp a - 1)) at 2 by lia. rewrite Z.pow_add_r by lia. lia.
+Qed.
+
+Lemma c13_rgb_binary_upper_half : forall a b, In (FRgbBin, a, b) conv_pairs -> forall c, valid a c ->
+  (convert FRgbBin a b c = bin_on <-> 128 <= luma_via a c) /\
+  (convert FRgbBin a b c = bin_off <-> luma_via a c < 128) /\ 0 <= luma_via a c <= 255.
+Proof.
+  intros a b H c Hv. destruct (pair_facts _ _ _ H) as (Ga & _ & _ & K). cbn in K. apply andb_prop in K. destruct K as [Ra _].
+  cbn [convert]. rewrite (conv_rgb_bin_luma a c Ga Ra Hv). pose proof (luma_via_range a c Ga Ra Hv).
+  assert (rgb_bin_threshold = 128) as -> by reflexivity.
+  unfold bin_of_bool, bin_on, bin_off. destruct (Z.geb_spec (luma_via a c) 128); split; try split; try lia; split; intros; try lia; discriminate.
+Qed.
+
+(* --- the list of provided conversions *)
+Fixpoint nodupb (l : list Z) : bool :=
+  match l with [] => true | x :: t => negb (existsb (Z.eqb x) t) && nodupb t end.
+Lemma nodupb_NoDup l : nodupb l = true -> NoDup l.
+Proof.
+  induction l as [|x t IH]; intros H; constructor; cbn in H; apply andb_prop in H; destruct H as [H1 H2].
+  - intros Hin. apply negb_true_iff in H1. assert (existsb (Z.eqb x) t = true); [|congruence].
+    apply existsb_exists. exists x. split; [assumption | apply Z.eqb_refl].
+  - apply IH, H2.
+Qed.
+Lemma c13_pairs_census :
+  length conv_pairs = 182%nat /\
+  (forall f a b, In (f, a, b) conv_pairs -> In a color_table /\ In b color_table /\ c_id a <> c_id b /\ family_kinds f a b = true) /\
+  NoDup (map (fun p => (c_id (snd (fst p)), c_id (snd p))) conv_pairs) /\
+  forallb (fun a => forallb (fun b => (c_id a =? c_id b) || match find_pair a b with Some _ => true | None => false end) color_table) color_table = true.
+Proof.
+  split; [vm_compute; reflexivity|]. split; [|split].
+  - intros f a b H. destruct (pair_facts _ _ _ H) as (Ga & Gb & N & K).
+    destruct (good_row_facts a Ga) as (_ & _ & _ & ?). destruct (good_row_facts b Gb) as (_ & _ & _ & ?). auto.
+  - apply (NoDup_map_inv (fun q : Z * Z => fst q * 1000 + snd q)). rewrite map_map.
+    apply nodupb_NoDup. vm_cast_no_check (eq_refl true).
+  - vm_cast_no_check (eq_refl true).
+Qed.
